@@ -2,14 +2,15 @@ import Exetera.Model.Concat
 import Exetera.Spec.CsvLine
 import Exetera.Lemmas.CsvLine
 import Exetera.Lemmas.ConcatBatch
+import Exetera.Lemmas.ConcatRoom
 /-!
   C16 — span concatenation produces the CSV-joined non-empty entries of each span, whatever the batching.
 
   All theorems are about `Exetera.Concat.applySpansConcat .repaired` / `Exetera.Concat.kernel` — the definitions the
   driver runs — for every alphabet `α` with decidable equality, every column `entries`, every list of span boundaries
   inside the column (partitions are the special case `0 = b₀ < … < b_k = entries.length`; the theorems do not even
-  need monotone boundaries), every `src_chunksize ≥ 1` and every value buffer `dest_chunksize * chunksize_mult` such that
-  no span output is longer than half of it.  `= .ok …` carries memory safety (every subscript of the kernel is a
+  need monotone boundaries), every `src_chunksize ≥ 1` and every `dest_chunksize`, `chunksize_mult` (the repaired code
+  sizes the value buffer itself, fix NC16b).  `= .ok …` carries memory safety (every subscript of the kernel is a
   checked access in the model) and termination (the batch loop is run with fuel `spans.length`).
 -/
 namespace Exetera.Props.C16
@@ -89,64 +90,63 @@ example : (∀ p ∈ exParams.spans, p ≤ exEntries.length) ∧
 
 /-! ### 3. the whole operation -/
 
-/-- **concat_eq_spec_room.** The operation equals its specification under the exact room condition of the batch loop:
-    every span output has at most `M` bytes, `M ≤ V` and `V/2 - 1 + M ≤ V` for `V = dest_chunksize * chunksize_mult`
-    (a batch continues only while fewer than `V/2` bytes are written, so the next span finds at least `V - (V/2 - 1)`
-    free bytes; the first span of a batch finds `V`). For every column, every list of span boundaries inside it and
-    every `src_chunksize ≥ 1`, `Session.apply_spans_concat` (with the D25 and NC16a repairs) terminates without an
-    out-of-range access and leaves in `dest.indices` / `dest.values` exactly the offsets and the bytes of `concatSpec`. -/
-theorem concat_eq_spec_room (sep delim : α) (entries : List (List α)) (spans : List Nat) (srcChunk destChunk mult : Nat)
+/-- **batches_eq_spec_room.** The batch loop, run with a value buffer of `V` bytes, equals the specification under the
+    exact room condition: every span output has at most `M` bytes, `M ≤ V` and `V/2 - 1 + M ≤ V` (a batch continues
+    only while fewer than `V/2` bytes are written, so the next span finds at least `V - (V/2 - 1)` free bytes; the first
+    span of a batch finds `V`). For every column, every list of span boundaries inside it and every `src_chunksize ≥ 1`
+    the loop terminates without an out-of-range access, having stored exactly the offsets and the bytes of `concatSpec`.
+    (Without the room condition this is false — `Witness.C16.room_hypothesis_needed`; that was finding NC16b.) -/
+theorem batches_eq_spec_room (sep delim : α) (entries : List (List α)) (spans : List Nat) (srcChunk valueCap : Nat)
     (hbound : ∀ p ∈ spans, p ≤ entries.length) (hsc : 1 ≤ srcChunk) (M : Nat)
     (hM : ∀ o ∈ concatSpec sep delim entries spans, o.length ≤ M)
-    (hMV : M ≤ destChunk * mult) (hV : destChunk * mult / 2 - 1 + M ≤ destChunk * mult) :
-    applySpansConcat .repaired sep delim spans (offsets entries) entries.flatten srcChunk destChunk mult
-      = .ok ⟨storedIndices (concatSpec sep delim entries spans), (concatSpec sep delim entries spans).flatten⟩ := by
-  obtain ⟨st, hrun, hdest⟩ := runBatches_spec sep delim spans entries srcChunk (destChunk * mult) hbound hsc M hM hMV hV
-  simp only [applySpansConcat, hrun, hdest]
+    (hMV : M ≤ valueCap) (hV : valueCap / 2 - 1 + M ≤ valueCap) :
+    ∃ st, runBatches .repaired sep delim spans (offsets entries) entries.flatten srcChunk valueCap = .ok st ∧
+      st.dest = ⟨storedIndices (concatSpec sep delim entries spans), (concatSpec sep delim entries spans).flatten⟩ :=
+  runBatches_spec sep delim spans entries srcChunk valueCap hbound hsc M hM hMV hV
+
+/-- longest output 12 bytes, buffer 21 (`21/2 = 10 < 12`, but `10 - 1 + 12 ≤ 21`) -/
+example : (∀ o ∈ concatSpec (44 : Nat) 34 exEntries [0, 1, 4, 5], o.length ≤ 12) ∧ 12 ≤ 21 ∧ 21 / 2 - 1 + 12 ≤ 21 ∧
+    (runBatches .repaired (44 : Nat) 34 [0, 1, 4, 5] (offsets exEntries) exEntries.flatten 2 21).map (·.dest)
+      = .ok ⟨[0, 1, 13, 15], [97, 34, 98, 44, 99, 34, 44, 34, 100, 34, 34, 101, 34, 195, 169]⟩ := by decide
+
+/-- **value_buffer_sized.** The sizing step of the repaired operation never fails for span boundaries inside the column,
+    never shrinks the requested buffer, and leaves every span output at most half the buffer. -/
+theorem value_buffer_sized (sep delim : α) (entries : List (List α)) (spans : List Nat) (destChunk mult : Nat)
+    (hbound : ∀ p ∈ spans, p ≤ entries.length) :
+    ∃ cap, valueCap .repaired spans (offsets entries) destChunk mult = .ok cap ∧ destChunk * mult ≤ cap ∧
+      ∀ o ∈ concatSpec sep delim entries spans, o.length ≤ cap / 2 :=
+  valueCap_spec sep delim entries spans destChunk mult hbound
+
+/-- requested buffer 2·2 = 4 bytes, longest span bound 2·6 + 3·3 = 21: the buffer is grown to 42 -/
+example : valueCap .repaired [0, 1, 4, 5] (offsets exEntries) 2 2 = .ok 42 ∧
+    (∀ o ∈ concatSpec (44 : Nat) 34 exEntries [0, 1, 4, 5], o.length ≤ 42 / 2) := by decide
 
 /-- **concat_eq_spec.** For every column, every list of span boundaries inside it, every `src_chunksize ≥ 1` and every
-    `dest_chunksize`, `chunksize_mult` such that no span output exceeds half of `dest_chunksize * chunksize_mult`:
-    `Session.apply_spans_concat` (with the D25 and NC16a repairs) terminates without an out-of-range access and leaves
-    in `dest.indices` / `dest.values` exactly the offsets and the bytes of `concatSpec` — one CSV line of the non-empty
-    entries per span.
-
-    Reading "large enough to hold one span's output" literally (`o.length ≤ dest_chunksize * chunksize_mult`) the
-    statement would be
-
-      theorem concat_eq_spec_whole_buffer … (hroom : ∀ o ∈ concatSpec sep delim entries spans, o.length ≤ destChunk * mult) :
-          applySpansConcat .repaired … = .ok ⟨storedIndices …, ….flatten⟩
-
-    and that is FALSE for the code as it is (finding NC16b, `Witness.C16.nc16b_span_longer_than_half_buffer`): the
-    kernel never checks the room left before writing a span, it only ends a batch once half the buffer is used.
-    `concat_eq_spec_room` above is the exact condition under which the loop is safe; this theorem is its instance for
-    the half-buffer condition of DESIGN.md. -/
+    `dest_chunksize`, `chunksize_mult`: `Session.apply_spans_concat` (with the D25, NC16a and NC16b repairs) terminates
+    without an out-of-range access and leaves in `dest.indices` / `dest.values` exactly the offsets and the bytes of
+    `concatSpec` — one CSV line of the non-empty entries per span. -/
 theorem concat_eq_spec (sep delim : α) (entries : List (List α)) (spans : List Nat) (srcChunk destChunk mult : Nat)
-    (hbound : ∀ p ∈ spans, p ≤ entries.length) (hsc : 1 ≤ srcChunk)
-    (hroom : ∀ o ∈ concatSpec sep delim entries spans, o.length ≤ destChunk * mult / 2) :
+    (hbound : ∀ p ∈ spans, p ≤ entries.length) (hsc : 1 ≤ srcChunk) :
     applySpansConcat .repaired sep delim spans (offsets entries) entries.flatten srcChunk destChunk mult
-      = .ok ⟨storedIndices (concatSpec sep delim entries spans), (concatSpec sep delim entries spans).flatten⟩ :=
-  concat_eq_spec_room sep delim entries spans srcChunk destChunk mult hbound hsc (destChunk * mult / 2) hroom
+      = .ok ⟨storedIndices (concatSpec sep delim entries spans), (concatSpec sep delim entries spans).flatten⟩ := by
+  obtain ⟨cap, hcap, _, hroom⟩ := valueCap_spec sep delim entries spans destChunk mult hbound
+  obtain ⟨st, hrun, hdest⟩ := runBatches_spec sep delim spans entries srcChunk cap hbound hsc (cap / 2) hroom
     (by omega) (by omega)
+  simp only [applySpansConcat, applySpansConcatS, hcap, hrun, hdest]
 
-/-- `concat_eq_spec_room` beyond the half-buffer condition: the longest output has 12 bytes, the buffer 21 (`21/2 = 10`) -/
-example : (∀ o ∈ concatSpec (44 : Nat) 34 exEntries [0, 1, 4, 5], o.length ≤ 12) ∧ 12 ≤ 21 * 1 ∧ 21 * 1 / 2 - 1 + 12 ≤ 21 * 1 ∧
-    ¬ (∀ o ∈ concatSpec (44 : Nat) 34 exEntries [0, 1, 4, 5], o.length ≤ 21 * 1 / 2) ∧
-    applySpansConcat .repaired (44 : Nat) 34 [0, 1, 4, 5] (offsets exEntries) exEntries.flatten 2 21 1
-      = .ok ⟨[0, 1, 13, 15], [97, 34, 98, 44, 99, 34, 44, 34, 100, 34, 34, 101, 34, 195, 169]⟩ := by decide
-
-/-- three batches (`src_chunksize = 1`), tight value buffer (the longest output has 12 bytes, the buffer 24) -/
+/-- two batches (`src_chunksize = 1`: one span, then two); requested value buffer of 1 byte (grown by the sizing step) -/
 example : (∀ p ∈ [0, 1, 4, 5], p ≤ exEntries.length) ∧
-    (∀ o ∈ concatSpec (44 : Nat) 34 exEntries [0, 1, 4, 5], o.length ≤ 6 * 4 / 2) ∧
-    applySpansConcat .repaired (44 : Nat) 34 [0, 1, 4, 5] (offsets exEntries) exEntries.flatten 1 6 4
-      = .ok ⟨[0, 1, 13, 15], [97, 34, 98, 44, 99, 34, 44, 34, 100, 34, 34, 101, 34, 195, 169]⟩ := by decide
+    applySpansConcat .repaired (44 : Nat) 34 [0, 1, 4, 5] (offsets exEntries) exEntries.flatten 1 1 1
+      = .ok ⟨[0, 1, 13, 15], [97, 34, 98, 44, 99, 34, 44, 34, 100, 34, 34, 101, 34, 195, 169]⟩ ∧
+    (applySpansConcatS .repaired (44 : Nat) 34 [0, 1, 4, 5] (offsets exEntries) exEntries.flatten 1 1 1).map (·.calls)
+      = .ok 2 := by decide
 
 /-- the strings read from the stored (indices, values) pair are the span outputs (at least one span) -/
 theorem concat_strings (sep delim : α) (entries : List (List α)) (spans : List Nat) (srcChunk destChunk mult : Nat)
-    (hbound : ∀ p ∈ spans, p ≤ entries.length) (hsc : 1 ≤ srcChunk)
-    (hroom : ∀ o ∈ concatSpec sep delim entries spans, o.length ≤ destChunk * mult / 2) (hsp : 2 ≤ spans.length) :
+    (hbound : ∀ p ∈ spans, p ≤ entries.length) (hsc : 1 ≤ srcChunk) (hsp : 2 ≤ spans.length) :
     ∃ d, applySpansConcat .repaired sep delim spans (offsets entries) entries.flatten srcChunk destChunk mult = .ok d ∧
       decode d.indices d.values = concatSpec sep delim entries spans := by
-  refine ⟨_, concat_eq_spec sep delim entries spans srcChunk destChunk mult hbound hsc hroom, ?_⟩
+  refine ⟨_, concat_eq_spec sep delim entries spans srcChunk destChunk mult hbound hsc, ?_⟩
   have hlen := concatSpec_length sep delim entries spans
   have : (concatSpec sep delim entries spans).isEmpty = false := by
     cases h : concatSpec sep delim entries spans with
@@ -170,31 +170,33 @@ theorem stored_entries_parse (sep delim : α) (hsd : sep ≠ delim) (entries : L
 example : (concatSpec (44 : Nat) 34 exEntries [0, 1, 4, 5]).map (parseCsvLine 44 34)
     = [[[97]], [[98, 44, 99], [100, 34, 101]], [[195, 169]]] := by decide
 
-/-- **batching_unobservable.** Two admitted batch settings give the same stored offsets and bytes. -/
+/-- **batching_unobservable.** Any two batch settings give the same stored offsets and bytes. -/
 theorem batching_unobservable (sep delim : α) (entries : List (List α)) (spans : List Nat)
-    (sc₁ dc₁ m₁ sc₂ dc₂ m₂ : Nat) (hbound : ∀ p ∈ spans, p ≤ entries.length) (h₁ : 1 ≤ sc₁) (h₂ : 1 ≤ sc₂)
-    (hr₁ : ∀ o ∈ concatSpec sep delim entries spans, o.length ≤ dc₁ * m₁ / 2)
-    (hr₂ : ∀ o ∈ concatSpec sep delim entries spans, o.length ≤ dc₂ * m₂ / 2) :
+    (sc₁ dc₁ m₁ sc₂ dc₂ m₂ : Nat) (hbound : ∀ p ∈ spans, p ≤ entries.length) (h₁ : 1 ≤ sc₁) (h₂ : 1 ≤ sc₂) :
     applySpansConcat .repaired sep delim spans (offsets entries) entries.flatten sc₁ dc₁ m₁
       = applySpansConcat .repaired sep delim spans (offsets entries) entries.flatten sc₂ dc₂ m₂ := by
-  rw [concat_eq_spec sep delim entries spans sc₁ dc₁ m₁ hbound h₁ hr₁,
-      concat_eq_spec sep delim entries spans sc₂ dc₂ m₂ hbound h₂ hr₂]
+  rw [concat_eq_spec sep delim entries spans sc₁ dc₁ m₁ hbound h₁,
+      concat_eq_spec sep delim entries spans sc₂ dc₂ m₂ hbound h₂]
 
-/-- one batch (`src_chunksize = 50`, large buffer) and three batches (`src_chunksize = 1`, tight buffer) -/
+/-- one batch (`src_chunksize = 50`, large buffer) and two batches (`src_chunksize = 1`) -/
 example : applySpansConcat .repaired (44 : Nat) 34 [0, 1, 4, 5] (offsets exEntries) exEntries.flatten 50 64 16
     = applySpansConcat .repaired (44 : Nat) 34 [0, 1, 4, 5] (offsets exEntries) exEntries.flatten 1 6 4 ∧
-    (∀ o ∈ concatSpec (44 : Nat) 34 exEntries [0, 1, 4, 5], o.length ≤ 64 * 16 / 2 ∧ o.length ≤ 6 * 4 / 2) := by decide
+    (applySpansConcatS .repaired (44 : Nat) 34 [0, 1, 4, 5] (offsets exEntries) exEntries.flatten 50 64 16).map (·.calls)
+      = .ok 1 ∧
+    (applySpansConcatS .repaired (44 : Nat) 34 [0, 1, 4, 5] (offsets exEntries) exEntries.flatten 1 6 4).map (·.calls)
+      = .ok 2 := by decide
 
-/-- the batch loop makes at most one kernel call per span (termination with an explicit bound) -/
-theorem concat_terminates (sep delim : α) (entries : List (List α)) (spans : List Nat) (srcChunk valueCap : Nat)
-    (hbound : ∀ p ∈ spans, p ≤ entries.length) (hsc : 1 ≤ srcChunk)
-    (hroom : ∀ o ∈ concatSpec sep delim entries spans, o.length ≤ valueCap / 2) :
-    ∃ st, runBatches .repaired sep delim spans (offsets entries) entries.flatten srcChunk valueCap = .ok st := by
-  obtain ⟨st, hrun, _⟩ := runBatches_spec sep delim spans entries srcChunk valueCap hbound hsc (valueCap / 2) hroom
+/-- the operation terminates: the batch loop is run with fuel `spans.length` (one kernel call per span at most) and
+    never runs out of it -/
+theorem concat_terminates (sep delim : α) (entries : List (List α)) (spans : List Nat) (srcChunk destChunk mult : Nat)
+    (hbound : ∀ p ∈ spans, p ≤ entries.length) (hsc : 1 ≤ srcChunk) :
+    ∃ st, applySpansConcatS .repaired sep delim spans (offsets entries) entries.flatten srcChunk destChunk mult = .ok st := by
+  obtain ⟨cap, hcap, _, hroom⟩ := valueCap_spec sep delim entries spans destChunk mult hbound
+  obtain ⟨st, hrun, _⟩ := runBatches_spec sep delim spans entries srcChunk cap hbound hsc (cap / 2) hroom
     (by omega) (by omega)
-  exact ⟨st, hrun⟩
+  exact ⟨st, by simp only [applySpansConcatS, hcap, hrun]⟩
 
-example : (runBatches .repaired (44 : Nat) 34 [0, 1, 4, 5] (offsets exEntries) exEntries.flatten 1 24).map (·.calls)
-    = .ok 3 := by decide
+example : (applySpansConcatS .repaired (44 : Nat) 34 [0, 1, 4, 5] (offsets exEntries) exEntries.flatten 2 0 0).map (·.calls)
+    = .ok 2 := by decide
 
 end Exetera.Props.C16
